@@ -562,6 +562,20 @@ let handle line =
     Printf.sprintf "= %s || %s fresh=%d" (so r) (so rf) (if fresh then 1 else 0)
   | ["QSTATE"] -> "= map=" ^ list_str string_of_order ses.q.qmap ^ " tk=" ^ list_str string_of_oid ses.q.tickets
                   ^ " abs=" ^ list_str string_of_oid (abs ses.q)
+  (* ---- judges extracted from Spec/Judges.v, applied to the implementation's observations ---- *)
+  | ["JUDGE"; "agg"; cv; ch; cc; listing] ->
+    if agg_b (n_of_string cv) (n_of_string ch) (n_of_string cc) (parse_list order_of_string listing) then "= 1" else "= 0"
+  | ["JUDGE"; "listing"; listing] ->
+    if listing_ok_b (parse_list order_of_string listing) then "= 1" else "= 0"
+  | ["JUDGE"; "acct"; p; qty; taker; before; txs; rem; complete] ->
+    let tx_of s = (match String.split_on_char '/' s with
+        | [_; tk; mk; pr; q; sd] -> { tx_idx = N0; tx_taker = oid_of_string tk; tx_maker = oid_of_string mk;
+                                      tx_price = n_of_string pr; tx_qty = n_of_string q; tx_side = side_of_string sd }
+        | _ -> failwith ("bad tx " ^ s)) in
+    let r = { r_taker = oid_of_string taker; r_txs = parse_list tx_of txs; r_remaining = n_of_string rem;
+              r_complete = (complete = "1"); r_filled = [] } in
+    if accounting_b (n_of_string p) (n_of_string qty) (oid_of_string taker) (parse_list order_of_string before) r
+    then "= 1" else "= 0"
   | ["PING"] -> "= pong"
   | _ -> "= error unknown command: " ^ line
 
